@@ -223,6 +223,79 @@ def stepU (s : UState) : UOp → Except Err UState
       | .error e => .error e
   | .setEnable b => .ok { s with enable := b }
 
+/-! ### keeper-level transfers on externally-owned tokens: how the token signals the outcome, how the keeper reads it
+
+`evmErc20Keeper.ERC20Transfer` = `ApplyContract(transfer)` followed by checks on the returned data.  EIP-20 lets a token
+signal a failed transfer by reverting OR by returning `false`; widely deployed tokens return nothing at all on success.
+`Accepts` is the keeper's reading of the four facts about the call (regenerated: `Gen/C08c.lean erc20Transfer_accepts`). -/
+
+inductive OkStyle where
+  | retTrue | retNothing
+  deriving DecidableEq, Repr
+
+inductive FailStyle where
+  | revert | retFalse | retNothing
+  deriving DecidableEq, Repr
+
+structure Style where
+  ok : OkStyle := .retTrue
+  fail : FailStyle := .revert
+  deriving DecidableEq, Repr
+
+/-- `accepts vmOk retEmpty unpackErr value` -/
+abbrev Accepts := Bool → Bool → Bool → Bool → Bool
+
+def Accepts.onOk (acc : Accepts) : OkStyle → Bool
+  | .retTrue => acc true false false true
+  | .retNothing => acc true true true false
+
+def Accepts.onFail (acc : Accepts) : FailStyle → Bool
+  | .revert => acc false true true false
+  | .retFalse => acc true false false false
+  | .retNothing => acc true true true false
+
+/-- the wrapper is sound for standard tokens: a reverted call is a failure whatever it returned, and a `false` return is
+a failure -/
+def Accepts.Sound (acc : Accepts) : Prop :=
+  (∀ e u v, acc false e u v = false) ∧ acc true false false false = false
+
+/-- one keeper-level `transfer(src → dst, n)` on the token `a` of style `st`: the token moves the amount and signals
+success, or (insufficient balance / zero address) moves nothing and signals failure in its own style; the keeper goes on
+iff it reads the signal as success.  Rejections: a failed EVM execution is reported as such (`insufficient`), anything
+else as an invalid result. -/
+def keeperTransfer (acc : Accepts) (st : Style) (L : Ledger) (a : Asset) (src dst : Addr) (n : Nat) : Except Err Ledger :=
+  if L.bal a src < n ∨ dst = zeroAddr then
+    if acc.onFail st.fail then .ok L else .error (if st.fail = .revert then .insufficient else .invalid)
+  else
+    if acc.onOk st.ok then applyPrim (.send a src dst n) L else .error .invalid
+
+/-- the message server with the keeper-level transfers of externally-owned tokens read through `acc`; everything else is
+`stepU` -/
+def stepUA (acc : Accepts) (styleOf : Nat → Style) (s : UState) : UOp → Except Err UState
+  | .convertCoin d u r n =>
+    match mintingEnabled s (partyAddr r) (pairByDenom s.idx d) with
+    | .error e => .error e
+    | .ok p =>
+      if s.dead.contains p.contract ∨ p.kind ≠ .externalOwned then stepU s (.convertCoin d u r n) else
+      -- ConvertCoinNativeERC20: escrow the coins, release the tokens, burn the coins
+      match applyPrim (.send (coinAsset d) (.user u) E n) s.L with
+      | .error e => .error e
+      | .ok L1 =>
+        match keeperTransfer acc (styleOf p.contract) L1 (.erc p.contract) E (partyAddr r) n with
+        | .error e => .error e
+        | .ok L2 => s.withLedger (applyPrim (.burn (coinAsset d) E E n) L2)
+  | .convertERC20 ct u r n =>
+    match mintingEnabled s (partyAddr r) (pairByErc s.idx ct) with
+    | .error e => .error e
+    | .ok p =>
+      if s.dead.contains p.contract ∨ p.kind ≠ .externalOwned then stepU s (.convertERC20 ct u r n) else
+      -- ConvertERC20NativeToken: escrow the tokens, mint the coins, pay them out
+      match keeperTransfer acc (styleOf p.contract) s.L (.erc p.contract) (.user u) E n with
+      | .error e => .error e
+      | .ok L1 =>
+        s.withLedger (runFlow [.mint (coinAsset p.denom) E E n, .send (coinAsset p.denom) E (partyAddr r) n] L1)
+  | op => stepU s op
+
 def stepUT (s : UState) (op : UOp) : UState :=
   match stepU s op with
   | .ok s' => s'
